@@ -122,9 +122,16 @@ def conc_part(run, q):
     binary = run.gobin("memdrv")
     trace = os.path.join(run.work, "trace.ndjson")
     for (R, C, reads) in ([(2, 1, 2), (2, 2, 1)] if q else [(2, 1, 2), (2, 2, 2), (3, 2, 1), (3, 1, 2)]):
-        cfg = {"impls": ["pm", "mg"], "readers": R, "closers": C, "reads": reads, "random": 30 if q else 300, "pct": 60 if q else 600,
-               "dfs": 250 if q else 4000, "preempt": 2, "sizes": [32] if q else [1, 4096, 9000]}
-        res = run.drv(["-conc", json.dumps(cfg), "-seed", str(run.seed), "-trace", trace], timeout=3000, binary=binary, ok_codes=(0,))
+        cfg = {"impls": ["pm", "mg"], "readers": R, "closers": C, "reads": reads, "random": 60 if q else 300, "pct": 200 if q else 800,
+               "dfs": 700 if q else 5000, "preempt": 2, "sizes": [32] if q else [1, 4096, 9000]}
+        try:
+            res = run.drv(["-conc", json.dumps(cfg), "-seed", str(run.seed), "-trace", trace], timeout=3000, binary=binary, ok_codes=(0,))
+        except Infra as e:
+            if "SIGSEGV" in str(e) or "unexpected fault address" in str(e) or "fatal error" in str(e):
+                # C11: no interleaving of readers and closers crashes the process
+                run.findings.append({"kind": "process-crash readers=%d closers=%d" % (R, C), "detail": str(e)[-1500:], "case": {"cfg": cfg}})
+                continue
+            raise
         run.absorb(res)
         rej = validate_traces(run, "SecMemConcTrace.tla", {}, [], trace, "conc-%dx%d" % (R, C), max_reject=4)
         for x in rej:
